@@ -22,11 +22,22 @@ def gen(wd):
             g.write('    V_ASSERT(memcmp(&old_%d, &scs->%s, sizeof(old_%d)) == 0, "%s is not touched by the core-count dependent buffer configuration");\n' % (i, n, i, n))
     with open(os.path.join(wd, "c05_geometry_fields.txt"), "w") as f:
         f.write("\n".join(geom))
+RP = "Source/Lib/Encoder/Codec/EbRestProcess.c"
+def gen_rest(wd):
+    from vlib import slicer
+    A = "        EB_GET_FULL_OBJECT(context_ptr->rest_input_fifo_ptr, &cdef_results_wrapper_ptr);\n"
+    B = "                                   cdef_results_ptr->segment_index);\n"
+    blk = slicer.between(RP, A, B, True)
+    if blk.count("{") - blk.count("}") != 1:
+        raise RuntimeError("rest_kernel head slice is not the expected single open block")
+    open(os.path.join(wd, "c05_rest_head.inc"), "w").write(
+        "/* sliced verbatim from rest_kernel (task fetch .. restoration_seg_search) */\nstatic void rest_task_head(RestContext *context_ptr) {\n"
+        "    PictureControlSet *pcs_ptr; SequenceControlSet *scs_ptr; EbObjectWrapper *cdef_results_wrapper_ptr; CdefResults *cdef_results_ptr;\n" + blk + "        }\n}\n")
 H = "Source/Lib/Encoder/Globals/EbEncHandle.c:"
 META = {
     "engine": "E3 frame condition",
     "level_text": "Frame-condition query on the real load_default_buffer_configuration_settings and set_parent_pcs: from an ARBITRARY sequence control set, for every logical-processor count 1..512, socket/pinning setting, resolution class and the relevant configuration fields, every field that is not parallel geometry (name-pattern list, regenerated from the header) is bit-identical before and after the call -- so nothing the encoder codes with can depend on the core count through this function.",
-    "level_note": "Decides the mechanism named by the property (the function that turns core counts into geometry). That segment grids themselves do not change coded output is C24's neighbour-availability result; kernels that read geometry to choose coding behaviour are outside (one such read, EbEncDecProcess.c pic_based_rate_est with a 1x1 segment grid, is noted in DESIGN.md).",
+    "level_note": "Additionally the head of rest_kernel (sliced; callees replaced by monitors) is checked for carrying no worker-private reconstruction copy from one task to the next. Decides the mechanism named by the property (the function that turns core counts into geometry). That segment grids themselves do not change coded output is C24's neighbour-availability result; kernels that read geometry to choose coding behaviour are outside (one such read, EbEncDecProcess.c pic_based_rate_est with a 1x1 segment grid, is noted in DESIGN.md).",
     "technique": "CBMC frame-condition check with field list from clang record layout",
     "assumptions": ["sysconf returns 1..512", "geometry fields are those matching the name patterns listed in checks/C05.py", "arrays of more than 16 elements are not part of the compared field set"],
     "outside": ["byte-identical output across core counts end to end"],
@@ -35,4 +46,7 @@ def queries(tier):
     return [Query(name="only_geometry_written", harness="C05/geometry.c", gen=gen, unwind=140, flags=["--object-bits", "12"], funcs=[H + "load_default_buffer_configuration_settings", H + "set_parent_pcs"], timeout=1200, mem_gb=24,
                   bound="arbitrary prior scs; logical processors 0..512 requested, 1..512 present, 1..2 groups, all resolution classes", what="no non-geometry field of the sequence control set is modified"),
             Query(name="core_count_clamped", harness="C05/clamp.c", unwind=4, funcs=[H + "set_parent_pcs"], timeout=300,
-                  bound="all core counts, frame rates, hierarchical levels 0..5, resolution classes", what="picture-buffer count is positive and bounded for every core count")]
+                  bound="all core counts, frame rates, hierarchical levels 0..5, resolution classes", what="picture-buffer count is positive and bounded for every core count"),
+            Query(name="rest_worker_scratch_refreshed_per_task", harness="C05/rest_scratch.c", gen=gen_rest, unwind=4, timeout=600, funcs=[RP + ":rest_kernel (task head, sliced; callees are monitors)"],
+                  bound="arbitrary task (picture, segment index), restoration on/off, intrabc, bit depth; worker previously idle / on this picture / on another picture",
+                  what="the restoration worker's private reconstruction copy is refreshed for the current picture before every segment search, whatever the worker processed before")]
